@@ -3,6 +3,7 @@ package setec
 import (
 	"context"
 	"errors"
+	"strings"
 	"time"
 
 	"github.com/tailscale/setec/types/api"
@@ -146,7 +147,8 @@ func verifHarnessC16Lookup() {
 		return
 	}
 	if symbolic() {
-		assert("fetch-inside-singleflight-per-name", and(len(verifSF.keys) == 1, verifSF.keys[0] == "lookup:"+name))
+		assert("fetch-inside-one-singleflight", len(verifSF.keys) == 1)
+		assert("singleflight-key-is-per-name", and(strings.HasSuffix(verifSF.keys[0], name), verifSF.keys[0] != "poll"))
 	}
 	assert("one-request-no-retry", client.requests == 1)
 	if err != nil {
